@@ -70,6 +70,12 @@ func init() {
 		Assumptions: []string{"reference evaluator mc/ref encodes README/NOTE + property statement; NaN ordering, reading a child block as a field, repetition beyond 2^20 bytes are excluded",
 			"operand values are limited to the alphabet (20 spellings); ints are 64-bit"},
 		Run: func(c *fw.Ctx) {
+			// short-circuit operators whose skipped / evaluated right operand compiles to 254 ... 65537 bytes
+			for _, s := range gen.ScaledFamilies(c.Thorough()) {
+				if strings.HasPrefix(s.Name, "jump-") {
+					c.Do(subC01, &progCase{Src: s.Src})
+				}
+			}
 			enumC01(c, func(src, shard string) bool {
 				c.Do(subC01, &progCase{Src: src, Shard: shard})
 				return !c.Expired()
